@@ -110,9 +110,17 @@ impl Layout {
         // that do not fit `i64` as offsets from the end
         let (shape, data) = surf.parts();
         let rows = self.pos.row.min(shape.height)
-            ..self.pos.row.saturating_add(self.size.height).min(shape.height);
+            ..self
+                .pos
+                .row
+                .saturating_add(self.size.height)
+                .min(shape.height);
         let cols = self.pos.col.min(shape.width)
-            ..self.pos.col.saturating_add(self.size.width).min(shape.width);
+            ..self
+                .pos
+                .col
+                .saturating_add(self.size.width)
+                .min(shape.width);
         SurfaceMutView::new(shape.view(rows, cols), data)
     }
 }
